@@ -377,6 +377,15 @@ func (g *G) resultType() {
 			}
 		}
 	}
+	if selfRefs > 0 {
+		// same finding: next to a self reference, an attribute that is another
+		// result type is lost in nested occurrences as well
+		for _, f := range obj.Fields {
+			if !refsType(f.Attr.Type, name) && g.refsResultType(f.Attr.Type) && g.avoid("C08-recursive-result-type-two-self-refs-loses-attribute") {
+				f.Attr = m.Prim(m.String)
+			}
+		}
+	}
 	// views: default (all or most fields) + 0-2 others
 	def := &m.View{Name: "default"}
 	for _, f := range obj.Fields {
@@ -400,7 +409,7 @@ func (g *G) resultType() {
 		}
 		// open finding: a view omitting a required object attribute makes the client panic
 		for _, f := range obj.Fields {
-			if !f.Required || g.d.Underlying(f.Attr) != m.Object {
+			if !f.Required || (g.d.Underlying(f.Attr) != m.Object && f.Attr.Type.Kind != m.User) {
 				continue
 			}
 			in := false
@@ -413,12 +422,47 @@ func (g *G) resultType() {
 				v.Fields = append(v.Fields, g.viewField(f))
 			}
 		}
+		// open finding (generic transform helper of recursive result types):
+		// a required attribute the view omits is dereferenced by the client
+		if selfRefs > 0 {
+			for _, f := range obj.Fields {
+				if !f.Required {
+					continue
+				}
+				in := false
+				for _, vf := range v.Fields {
+					if vf.Name == f.Name {
+						in = true
+					}
+				}
+				if !in && g.avoid("C08-recursive-result-type-two-self-refs-loses-attribute") {
+					v.Fields = append(v.Fields, g.viewField(f))
+				}
+			}
+		}
 		ut.Views = append(ut.Views, v)
 	}
 	g.feat("result-type")
 	if len(ut.Views) > 1 {
 		g.feat("multi-view")
 	}
+}
+
+// refsResultType reports whether the type is, or is a collection of, a result type.
+func (g *G) refsResultType(t *m.Type) bool {
+	if t == nil {
+		return false
+	}
+	switch t.Kind {
+	case m.User:
+		ut := g.d.TypeByName(t.User)
+		return ut != nil && ut.Result
+	case m.Array:
+		return g.refsResultType(t.Elem.Type)
+	case m.Map:
+		return g.refsResultType(t.Val.Type)
+	}
+	return false
 }
 
 func (g *G) viewField(f *m.Field) m.ViewField {
